@@ -171,3 +171,44 @@ def eof_dedents(cur: int, last: int) -> bool:
         out.append(t.type)
     want = (['NEWLINE'] if (last == 2 and cur > 0) else []) + ['DEDENT'] * cur
     return hx.ok(out == want and lexer.cur_indent == 0)
+
+
+# ---------------------------------------------------------------- parenthesis state (continuation mode)
+from stone._vendor.ply import lex as _lex
+_PLY = _lex.lex(module=lx.Lexer())         # built once at import (concretely); harness paths work on clones
+
+
+def _ply_lexer():
+    c = _PLY.clone()            # clone() is a shallow copy: give the clone its own state stack
+    c.lexstatestack = []
+    c.begin('INITIAL')
+    return c
+
+
+B6 = __import__('typing').Tuple[bool, bool, bool, bool, bool, bool]
+
+
+@hx.harness(props=['C11', 'C03'], targets=['stone.frontend.lexer:Lexer.t_LPAR', 'stone.frontend.lexer:Lexer.t_RPAR'],
+            bound='every sequence of up to 6 parentheses (balanced or not) through the t_LPAR / t_RPAR actions on a real '
+                  'ply lexer object', outside=_OUT, budget=(100, 300))
+def paren_state(seq: B6, n: int) -> bool:
+    """
+    pre: 0 <= n <= 6
+    post: _
+    """
+    lexer = lx.Lexer()
+    ply = _ply_lexer()
+    depth = 0
+    good = True
+    for k in range(n):
+        tok = lx._create_token('LPAR' if seq[k] else 'RPAR', '(' if seq[k] else ')', 1, k)
+        tok.lexer = ply
+        if seq[k]:
+            lexer.t_LPAR(tok)
+            depth += 1
+        else:
+            lexer.t_RPAR(tok)               # must never raise, also when unbalanced
+            depth = max(0, depth - 1)
+        # line breaks are ignored (continuation mode) exactly while some '(' is open
+        good = good and ((ply.current_state() == 'WSIGNORE') == (depth > 0))
+    return hx.ok(good)
